@@ -384,7 +384,10 @@ func (w *c16World) valbits(op map[string]interface{}) map[string]interface{} {
 	if err != nil {
 		return res(err)
 	}
-	// as the server does: protobuf element -> gdbi element -> AddVertex
+	// as the server does: Validate the protobuf element, then protobuf element -> gdbi element -> AddVertex
+	if err := (&gripql.Vertex{Gid: id, Label: "N", Data: st}).Validate(); err != nil {
+		return res(err)
+	}
 	if err := g.AddVertex([]*gdbi.Vertex{gdbi.NewElementFromVertex(&gripql.Vertex{Gid: id, Label: "N", Data: st})}); err != nil {
 		return res(err)
 	}
